@@ -836,6 +836,16 @@ func genDecision(r *common.Rand, sc *Scenario) fakereg.Decision {
 	if r.Chance(1, 4) {
 		d.Pad = 1 + r.Intn(4)
 	}
+	// shapes of the JSON document: empty page as null, leading white space, a second document behind
+	if r.Chance(1, 5) {
+		d.NullBody = 1 + r.Intn(2)
+	}
+	if r.Chance(1, 10) {
+		d.LeadWS = 1 + r.Intn(3)
+	}
+	if r.Chance(1, 10) {
+		d.TrailDoc = true
+	}
 	// raw sub-delimiters / malformed escapes in the link query (legal URL text that url.ParseQuery rejects)
 	if r.Chance(1, 8) {
 		d.RawPairs = []string{common.Pick(r, []string{"tok=a;b", "t=%zz", "sig=x;y;z", "k;1=v", "u=100%"})}
